@@ -115,6 +115,16 @@ type muxRun struct {
 	out      func(muxLine)
 }
 
+// ipForm returns the 4-byte (form even) or the 16-byte (form odd) representation of an IPv4 address: the same address for
+// the application and for the mux, which routes by address and not by representation.
+func ipForm(ip net.IP, form int) net.IP {
+	if form&1 == 0 {
+		return ip.To4()
+	}
+
+	return ip.To16()
+}
+
 func laterPayload(c, k int) []byte { return []byte(fmt.Sprintf("pkt-%d-%d", c, k)) }
 
 // firstFrame is the body of the first frame client c sends (nil: none); built once, the transaction id is random.
@@ -232,7 +242,9 @@ func (r *muxRun) dial(c int) bool {
 	if cl.st != "idle" {
 		return false
 	}
-	conn, sv := pipePair(r.ln.addr, cl.addr)
+	// the accepted socket reports its local address in either representation of the IPv4 address (4 bytes from an IPv4 socket,
+	// 16 bytes v4-mapped from a dual-stack socket); which one is a property of the platform, not of the address
+	conn, sv := pipePair(&net.TCPAddr{IP: ipForm(r.ln.addr.IP, r.sc.ID>>1), Port: r.ln.addr.Port}, cl.addr)
 	if !r.ln.offer(sv) {
 		_ = conn.Close()
 
@@ -362,7 +374,7 @@ func (r *muxRun) step(a muxAct) {
 		close(cl.sendq)
 		_ = cl.conn.Close()
 	case "Get":
-		pc, err := r.mux.GetConnByUfrag(a.U, false, r.ln.addr.IP)
+		pc, err := r.mux.GetConnByUfrag(a.U, false, ipForm(r.ln.addr.IP, r.sc.ID))
 		line.OK = err == nil
 		if err == nil {
 			h := &muxHandle{u: a.U, pc: pc, id: ice.VerifTCPPacketConnID(pc)}
